@@ -62,10 +62,71 @@ def r1_concrete_tags(ctx):
             if (ct.get("callee") or "").endswith("HashSet::insert"):
                 inserts.setdefault(v, []).append(cb)
                 total += 1
+    # table-driven form: `for (type_id, .., tag) in [(index.integer, .., ConcreteType::Integer), ..] { if is_compatible(type_id?, pattern) { insert(tag) } }`
+    # — the tag inserted and the type id compared are two columns of the SAME row of a literal array; each row must pair a tag with its own index field
+    table = {}       # variant -> (insert block, element local, loop header block, row operand locals)
+    nxt = {t["dest"]["l"]: (bi, t) for bi, t in b.calls() if (t.get("callee") or "").endswith("Iterator::next")}
+
+    def elem_column(l):
+        """(element local, tuple column) when local l is a column of the item produced by a `next` call"""
+        c = fld.canon_local(l)
+        fs = [e for e in c[1] if e[0] == "f"]
+        if c[0] in nxt and len(fs) >= 2 and str(fs[1][1]).isdigit():
+            return c[0], int(fs[1][1])
+        return None
+    for ib, t in b.calls():
+        if not (t.get("callee") or "").endswith("HashSet::insert") or len(t["args"]) < 2 or not op_place(t["args"][1]):
+            continue
+        ec = elem_column(op_place(t["args"][1])["l"])
+        if not ec:
+            continue
+        E, pos = ec
+        hb, ht = nxt[E]
+        itp = op_place(ht["args"][0])
+        arrs = [x for x in fld.sources(itp["l"], through_calls=("IntoIterator::into_iter", "slice::iter", "Deref::deref"), stop_at_agg=True)
+                if x[0] == "rv" and x[2]["rv"]["k"] == "agg" and x[2]["rv"].get("kind") == "array"] if itp else []
+        for x in arrs:
+            for o in x[2]["rv"]["ops"]:
+                tl = (op_place(o) or {}).get("l")
+                ds = fld.defs.get(tl, [])
+                if len(ds) != 1 or ds[0][1] == "term" or ds[0][2]["rv"]["k"] != "agg" or ds[0][2]["rv"].get("kind") != "tuple":
+                    continue
+                rops = [(op_place(o2) or {}).get("l") for o2 in ds[0][2]["rv"]["ops"]]
+                if pos >= len(rops) or rops[pos] is None:
+                    continue
+                d2 = fld.defs.get(rops[pos], [])
+                if len(d2) == 1 and d2[0][1] != "term" and d2[0][2]["rv"]["k"] == "agg" and (d2[0][2]["rv"].get("adt") or "").endswith("bytecode::ConcreteType") \
+                        and not d2[0][2]["rv"]["ops"]:
+                    v = d2[0][2]["rv"]["variant"]
+                    table[v] = (ib, E, hb, rops)
+                    inserts.setdefault(v, []).append(ib)
+                    total += 1
     ctx.floor(R, "ConcreteType insert sites", total, len(cv))
     for v in cv:
         site = "%s|insert %s" % (b.key, v)
         guarded = None
+        if v in table and not INDEX_SOURCE[v].startswith("call:"):
+            ib, E, hb, rops = table[v]
+            for cb, ct in compat_calls:
+                a1 = fl.canon_op(ct["args"][1])
+                a0 = op_place(ct["args"][0])
+                ec = elem_column(a0["l"]) if a0 else None
+                if not b.reaches(cb, ib) or not a1 or a1[0] != pat_param[0] or not ec or ec[0] != E:
+                    continue
+                r = ct["dest"]["l"]
+                others = [x for x in compat_blocks if x != cb] + [hb]      # within one iteration
+                t_ok = any(explore(b, [(s2, {r: 1})], want="target", targets=[ib], avoid=others) for s2 in b.succ[cb])
+                f_bad = any(explore(b, [(s2, {r: 0})], want="target", targets=[ib], avoid=others + [cb]) for s2 in b.succ[cb])
+                if t_ok and not f_bad:
+                    col = rops[ec[1]] if ec[1] < len(rops) else None
+                    fields = {f for o_, f in fld.slice_reads(col)[0] if (o_ or "").endswith("TypeIndex")} if col is not None else set()
+                    guarded = (ib, cb, fields == {INDEX_SOURCE[v]})
+            if guarded is None:
+                ctx.violated(R, site, "ConcreteType::%s (a row of the primitives table) is not inserted under is_compatible(<the row's type id>, pattern_id)" % v, b.loc(ib))
+            else:
+                ctx.check(guarded[2], R, site, "the row pairs ConcreteType::%s with index.%s, and the tag is inserted iff is_compatible(<that id>, pattern_id)" % (v, INDEX_SOURCE[v]),
+                          "the table row for ConcreteType::%s compares a type id that does not come from index.%s" % (v, INDEX_SOURCE[v]), b.loc(guarded[0]))
+            continue
         for ib in inserts.get(v, []):
             for cb, ct in compat_calls:
                 if not b.reaches(cb, ib):
@@ -183,6 +244,44 @@ def r1_concrete_tags(ctx):
                           "a row of the IsType table is no longer compute_compatible_concrete_types(<that pattern id>) itself (sources: %s): assembling it from "
                           "parts decides the relation without the whole pattern type on the cycle stack" % sorted({(x[2].get("callee") or x[0]).split("::")[-1] if x[0] == "call" else x[0] for x in srcs}),
                           tcb.loc(b2, s2))
+    if rows == 0:
+        # collected form: `(0..types.len()).map(|p| if is_pattern(p) { cct(p, ..) } else { HashSet::new() }).collect()` — row p is what the closure
+        # returns for p: every value it can return is cct(<its own argument>) or an empty set, and the range it is mapped over starts at 0
+        CCT = "compatibility::compute_compatible_concrete_types"
+        for ck in F.closures_of(tcb.key):
+            cb = F.body(ck)
+            ccalls = [(bi, t) for bi, t in cb.calls() if (t.get("callee") or "").endswith(CCT)]
+            if not ccalls or "HashSet<quiver_core::bytecode::ConcreteType" not in (cb.local_ty(0) or ""):
+                continue
+            cfl = Flow(cb, through_named=True)
+            srcs = cfl.sources(0)
+            arg_locals = set(range(2, cb.mir["argc"] + 1))
+            okc = bool(srcs)
+            for x in srcs:
+                if x[0] == "call" and (x[2].get("callee") or "").endswith(CCT):
+                    a0 = op_place(x[2]["args"][0])
+                    okc = okc and bool(a0) and bool(cfl.backward({a0["l"]}) & arg_locals)
+                elif x[0] == "call" and (x[2].get("callee") or "").endswith(("HashSet::new", "Default::default")):
+                    pass
+                else:
+                    okc = False
+            # the closure is mapped over a range starting at 0 and the collected result is the table returned
+            mapped = False
+            for bi, si, st in tcb.stmts():
+                if st["k"] == "assign" and st["rv"].get("closure") == ck:
+                    cl = st["p"]["l"]
+                    for b2, t2 in tcb.calls():
+                        if (t2.get("callee") or "").endswith("Iterator::map") and len(t2["args"]) > 1 and (op_place(t2["args"][1]) or {}).get("l") == cl:
+                            recv = op_place(t2["args"][0])
+                            rs = tfl.sources(recv["l"], stop_at_agg=True) if recv else []
+                            zero = bool(rs) and all(x[0] == "rv" and x[2]["rv"]["k"] == "agg" and (x[2]["rv"].get("adt") or "").endswith("range::Range") and
+                                                    x[2]["rv"]["ops"] and x[2]["rv"]["ops"][0].get("c") == "const" and x[2]["rv"]["ops"][0].get("val") == 0 for x in rs)
+                            to_ret = t2["dest"]["l"] in tfl.backward({0}, through_calls=("Iterator::collect", "FromIterator::from_iter"))
+                            mapped = mapped or (zero and to_ret)
+            rows += 1
+            ctx.check(okc and mapped, R, tcb.key + "|row=cct(row)", "row p of the collected table is compute_compatible_concrete_types(p, ..) or the empty set, for p in 0..len",
+                      "the collected IsType table is not `p -> compute_compatible_concrete_types(p)` over 0..len (closure sources %s, mapped over 0..: %s)"
+                      % (sorted({(x[2].get("callee") or x[0]).split("::")[-1] if x[0] == "call" else x[0] for x in srcs}), mapped), cb.loc(0))
     ctx.floor(R, "IsType table row stores", rows, 1)
     # the runtime test consults the table with the value's concrete tag
     c = F.body(EXEC + "::check_type_compatible")
